@@ -32,3 +32,9 @@ Theorem C14_flag_flip_weight_is_score_change : forall g k t c a tg t' w b,
   wfg g -> wft (GMask g) t -> edit (GMask g) k t (RUpdate c) a tg = Ok (t', w, b) -> w = t_score t' - t_score t.
 Proof. exact mask_flip_weight. Qed.
 Print Assumptions C14_flag_flip_weight_is_score_change.
+
+(* ---- non-vacuity: concrete non-trivial programs and traces meeting the hypotheses above (proofs/GFIWitness.v) ---- *)
+From Proofs Require Import GFIWitness.
+Example C14_hypotheses_met : wft ex_mask (tr_of ex_mask ex_mask_a) /\ length (t_choices (tr_of ex_mask ex_mask_a)) = 1%nat.
+Proof. exact ex_mask_wft. Qed.
+Print Assumptions C14_hypotheses_met.
